@@ -62,6 +62,16 @@ func genC17(t *rapid.T) C17Case {
 		}
 		c.Via = rapid.SampledFrom([]string{"", "", "gob", "json"}).Draw(t, "via")
 		genRecv()
+		if c.X.F == "f" && c.Z != nil && rapid.IntRange(0, 9).Draw(t, "hugepair") == 0 {
+			// sender and receiver precisions both near MaxPrec (or near 2^31), the receiver's a little below the
+			// sender's: nothing is rounded (the value has far fewer digits), but every size computed from the two
+			// precisions is at the edge of 32 bits
+			base := rapid.SampledFrom([]uint{model.MaxPrec, model.MaxPrec, 1 << 31, 1<<31 + 40}).Draw(t, "hp.base")
+			c.X.P = base - uint(rapid.IntRange(0, 3).Draw(t, "hp.x"))
+			c.X.Hist = ""
+			zp := c.X.P - uint(rapid.IntRange(1, 40).Draw(t, "hp.z"))
+			c.Z = &h.Spec{F: "z", P: zp, M: h.GenMode(t, "hp.zm")}
+		}
 		if c.Via == "json" {
 			c.Z = nil
 		}
@@ -232,7 +242,7 @@ func checkC17(c C17Case, o *h.Obs) *h.Fail {
 	return h.Failf("bad-case", "kind %q", c.Kind)
 }
 
-const ruleC17 = "rapid-generated cases. (rt) any Decimal with any attributes (precision >= MinPrec up to MaxPrec, six modes, accuracies Below/Exact/Above reached through real roundings, clean and dirty zeros/infinities, up to 800 / 6000 digits) -> GobEncode -> GobDecode, directly or through an encoding/gob stream, into a zero-value receiver (every attribute must be identical) or into a receiver with non-zero precision smaller / equal / larger than x's digits and its own mode and previous contents (precision and mode kept, value == x rounded once to them, matching accuracy); JSON streams for value and sign. (mut) a valid encoding with one mutation: byte set, truncation at any length, extension, header byte (form 3, modes 6-7, accuracy code 3), precision field (0, below the digit count, near 2^32), exponent field extremes, a mantissa word replaced by 0 / 10^19 / 2^64-1 / 10^18-1 .... (raw) arbitrary bytes biased towards version 1 + finite form. After every (rt) and (mut) decode a fixed batch of unrelated divisions, products and a square root on private variables cycles the library's pooled scratch buffers and the receiver is read again: it must not have changed. Oracle for mut/raw: no panic; afterwards the receiver is canonical with valid form/mode/accuracy codes whether or not an error was returned; an accepted payload's value re-encodes and decodes to itself. Non-trivial = (rt) finite multi-word value or rounding by the receiver; (mut/raw) payload that reaches mantissa parsing (length >= 10, version 1, finite form)."
+const ruleC17 = "rapid-generated cases. (rt) any Decimal with any attributes (precision >= MinPrec up to MaxPrec, six modes, accuracies Below/Exact/Above reached through real roundings, clean and dirty zeros/infinities, up to 800 / 6000 digits) -> GobEncode -> GobDecode, directly or through an encoding/gob stream, into a zero-value receiver (every attribute must be identical) or into a receiver with non-zero precision smaller / equal / larger than x's digits (also: sender and receiver precisions both within 40 of MaxPrec or 2^31, the receiver's below the sender's) and its own mode and previous contents (precision and mode kept, value == x rounded once to them, matching accuracy); JSON streams for value and sign. (mut) a valid encoding with one mutation: byte set, truncation at any length, extension, header byte (form 3, modes 6-7, accuracy code 3), precision field (0, below the digit count, near 2^32), exponent field extremes, a mantissa word replaced by 0 / 10^19 / 2^64-1 / 10^18-1 .... (raw) arbitrary bytes biased towards version 1 + finite form. After every (rt) and (mut) decode a fixed batch of unrelated divisions, products and a square root on private variables cycles the library's pooled scratch buffers and the receiver is read again: it must not have changed. Oracle for mut/raw: no panic; afterwards the receiver is canonical with valid form/mode/accuracy codes whether or not an error was returned; an accepted payload's value re-encodes and decodes to itself. Non-trivial = (rt) finite multi-word value or rounding by the receiver; (mut/raw) payload that reaches mantissa parsing (length >= 10, version 1, finite form)."
 
 var propC17 = &h.Prop[C17Case]{ID: "C17", Rule: ruleC17, Gen: genC17, Check: checkC17, Matchers: map[string]func(C17Case) bool{}}
 
